@@ -10,31 +10,32 @@ variable {μ : Type}
 theorem drop_never_blocks (s : St μ) (h : Nat) (hh : h ∈ s.handles) : (step s (.drop h)).isSome = true :=
   drop_enabled s h hh
 
-/-- the stop request is never lost: once no handle is left it is recorded, whatever the queue's
-occupancy at drop time (a full bounded queue included) -/
+/-- the stop request is never lost: once no handle is left the stopper is running or has run, and
+once `stop()` has run the request is recorded, whatever the queue's occupancy when the pill was
+tried (a full bounded queue included) -/
 theorem stop_request_survives {cap hh} (s : St μ) (h : Reachable cap hh s) (h0 : s.handles = []) :
-    s.stopReq = true := stop_not_lost s h h0
+    s.stopStage ≠ .idle ∧ (s.stopStage = .done → s.stopReq = true) := stop_not_lost s h h0
 
 /-- After the last drop the worker can always step until it has exited and released (for every
 capacity ≥ 1 or unbounded, every occupancy, every outcome script), every such run is finite … -/
 theorem last_drop_terminates {cap hh} (s : St μ) (h : Reachable cap hh s) (h0 : s.handles = [])
     (hc : s.cap ≠ some 0) :
-    (s.released = false → ∃ l, isWorker l = true ∧ (step s l).isSome = true) ∧
-    ∀ ls : List (Label μ), (∀ l ∈ ls, isWorker l = true) → (runLabels s ls).isSome = true → ls.length ≤ measure s :=
+    (s.released = false → ∃ l, isSystem l = true ∧ (step s l).isSome = true) ∧
+    ∀ ls : List (Label μ), (∀ l ∈ ls, isSystem l = true) → (runLabels s ls).isSome = true → ls.length ≤ measure s :=
   ⟨fun hr => progress s h h0 hc hr, fun ls hw hr => worker_runs_bounded s ls hw hr⟩
 
 /-- … and it ends with everything delivered: the worker exits only when every accepted metric has
 been handed to the wrapped sink, and the wrapped sink is released only after that, with no handle left. -/
 theorem drains_before_release {cap hh} (s : St μ) (h : Reachable cap hh s) :
     (s.phase = .exited → s.wrappedLog = s.accepted) ∧
-    (s.released = true → s.phase = .exited ∧ s.handles = [] ∧ s.wrappedLog = s.accepted) :=
+    (s.released = true → s.phase = .exited ∧ s.handles = [] ∧ s.stopStage = .done ∧ s.wrappedLog = s.accepted) :=
   ⟨exited_all_delivered s h, released_after_all s h⟩
 
 -- non-vacuity: capacity 1, worker inside the sink on m1, m2 queued (queue full), last handle dropped:
 -- the stop marker does not fit, yet both metrics are delivered, the worker exits and releases
 example : ((runLabels (init (some 1) false : St Nat)
     [.emitTry 0 1, .emitCount, .wCheck, .wRecv, .wCount, .emitTry 0 2, .emitCount, .drop 0,
-     .wFinish .panic, .wCheck, .wRecv, .wCount, .wFinish (.err 3), .wCheck, .release]).map
+     .stopFlag, .stopPill, .wFinish .panic, .wCheck, .wRecv, .wCount, .wFinish (.err 3), .wCheck, .release]).map
       (fun s => (s.wrappedLog, s.released))) = some ([1, 2], true) := by decide
 
 end C09
